@@ -17,6 +17,9 @@ built = {
  'C04': dict(cat='exploration', ref='DESIGN.md §4 C04', tech=T_ENUM,
    text='All array shapes of 1-2 (thorough 3) dimensions with lower bounds {-2,0,1} and extents {1,2,3} x 7 element types (incl. STRING*3 and a nested record): fill/read-back in both orders with LBOUND/UBOUND, an out-of-range probe at every face of the box (read and write), every ordered pair of writes with a full dump for boxes of <= 6 cells; fixed-length strings as variable, field and element assigned through 5 routes; typed subscripts; all judged by the reference semantics.',
    note='Content of a fixed-length string before its first assignment is never read.'),
+ 'C05': dict(cat='model_checking', ref='DESIGN.md §4 C05', tech='explicit enumeration of all jump layouts, escape paths, GOSUB nesting histories and handler/fault histories up to a bound, every program run on the real pipeline and compared with an independent reference semantics',
+   text='All layouts of a GOTO / GOSUB / ON..GOTO / ON..GOSUB and its target over the positions of up to 3 nested blocks (forward, backward, into and out of every construct), every EXIT / GOTO escape from depth <= 3 to every enclosing level, all GOSUB / RETURN / RETURN label histories of depth <= 3 (thorough 4), every statement kind x fault kind as the failing statement (incl. the last statement of a block, loop, subprogram, module) x {no handler, ON ERROR RESUME NEXT, handler with RESUME / RESUME NEXT / RESUME label, handler cleared by ON ERROR GOTO 0, fault inside a handler}; output, ERR and ending compared with the reference semantics.',
+   note='RETURN label only at module level; error edges from failing block headers are not judged (R6); reference semantics hand-written.'),
  'C06': dict(cat='exploration', ref='DESIGN.md §4 C06', tech='bounded-exhaustive enumeration of boundary lattices x delivery routes, differential against the reference semantics plus an in-VM typed-variable monitor',
    text='For every ordered pair of numeric types every value of the target type boundary lattice is delivered through 9 routes (assignment, array element, record field, by-value parameter, FUNCTION result, FOR start+increment, READ, INPUT, FOR limit) as literal and as typed variable; + - * / MOD and unary minus on all pairs of the INTEGER and LONG boundary lattices; judged by the reference semantics (value or Overflow 6 at the right row) and by a monitor in the VM that checks at every statement start that every variable holds a value of its own type and range.',
    note='Ties x.5 excluded (R1); quotients with a LONG operand (R21) and near-whole quotients (R22, known finding) are not judged.'),
